@@ -341,3 +341,51 @@ PROPS['C16'] = dict(
     assumptions=['clap and toml parsing, humantime, chrono_tz are glue: exercised on every case, not modelled',
                  'the theorems about running cover the strategy loop (model A); the aggregator (State::update_from_round) is covered for the accepted grid cells by execution only'],
 )
+
+
+# ---------------------------------------------------------------- receive path (C02 decode half, C04 receive half)
+def compare_recv(inp, impl_out, model_out):
+    """identical canonical output; a panic of the implementation corresponds to any Fault of the model"""
+    return norm_fault(impl_out) == norm_fault(model_out)
+
+
+def recv_decoded(inp, outp):
+    return outp[:3] in ('te/', 'du/', 'er/', 'tr/', 'tf/')
+
+
+def c02_nontrivial(inp, outp):
+    # an own / foreign quotation that reached the strategy side, or a dispatched probe
+    return ' acc=' in outp or (inp.startswith('probe ') and not outp.startswith('err'))
+
+
+RECV_RULE = ('real Channel<SimSocket>::recv_probe on one datagram per case (harness mode recv): (i) structure-aware stream - for every configuration cell '
+             '(ICMP, UDP classic/Paris/Dublin x fixed src/dest/both, TCP; IPv4 and IPv6; privileged/unprivileged; extension parsing on/off) a probe datagram and a '
+             'standards-conforming Time Exceeded / Destination Unreachable / Echo Reply built by an independent Rust encoder (quotation length 28..full, TTL/TOS/checksum rewritten, '
+             'no extension / RFC 4884 / legacy 128-octet extension with MPLS and unknown objects, outer IPv4 options), then one identity facet made foreign, one length / offset / protocol field mutated, '
+             'truncation at every position; (ii) random byte strings; (iii) sweeps of outer IHL 0..15, nested IHL 0..15, UDP length, IPv6 payload length, extension object lengths against every buffer length '
+             '0..160 (quick) / 0..1024 (thorough) and the RFC 4884 length octet 0..255; TCP socket outcomes; the bytes the real dispatch hands to send_to for every cell. '
+             'Each line is replayed through the extracted model (recv4 / recv6 / recv_probe / accept_info / probe_sendto). ')
+
+PROPS['C02'] = dict(
+    crates=['hcore'], modes=[('hcore', 'recv')], nontrivial=c02_nontrivial, compare=compare_recv, oracle_tag='C02',
+    rule=RECV_RULE + 'C02 oracle (model free): for an own quotation the real strategy-side functions (TracerStateHandle::response_sequence / accepts) must accept it and recover exactly '
+         'the probe sequence; a foreign quotation must never be accepted; dispatched probes must carry identifier / sequence / ports / checksum / marker at the RFC offsets. '
+         'non-trivial = a case that reached the strategy side or a dispatched probe; distinct = distinct input line',
+    exhaustive={'quick': False, 'thorough': False},
+    explanation='sampled: sequences, addresses, sizes, peer behaviours; the theorems of Props/C02.v quantify over all of them',
+    timeout={'quick': 600, 'thorough': 3000},
+)
+# C04: the receive-path mode joins the packet-half mode of the existing entry
+def is_recv_line(inp):
+    return inp.split(' ', 1)[0] in ('recv', 'tcpsock', 'probe')
+
+
+_c04_pkt = PROPS['C04']
+PROPS['C04'] = dict(
+    _c04_pkt, modes=_c04_pkt['modes'] + [('hcore', 'recv')],
+    compare=lambda inp, a, b: compare_recv(inp, a, b) if is_recv_line(inp) else _c04_pkt['compare'](inp, a, b),
+    nontrivial=lambda inp, o: recv_decoded(inp, o) if is_recv_line(inp) else _c04_pkt['nontrivial'](inp, o),
+    rule=_c04_pkt['rule'] + ' || ' + RECV_RULE + 'C04 oracle for the receive path: the call panicked (arithmetic overflow checks on, as in the harness profile); non-trivial = a response was decoded',
+    explanation=_c04_pkt.get('explanation', '') + '; receive path: field x buffer-length sweeps are complete for the listed value sets, contents are sampled, the theorems cover every byte string of every length',
+    timeout={'quick': 600, 'thorough': 3000},
+)
